@@ -66,8 +66,10 @@ def network_case(ctx, out, desc, tseed):
     desc2, sigma, tau, flips = transform_desc(core.Rng(tseed, 'net'), desc)
     try:
         net = gen_net.to_impl(desc); net2 = gen_net.to_impl(desc2)
-        if max(np.linalg.cond(na.nodal_analysis_coefficient_matrix(net)), np.linalg.cond(na.nodal_analysis_coefficient_matrix(net2))) > 1e8:
+        cond = max(np.linalg.cond(na.nodal_analysis_coefficient_matrix(net)), np.linalg.cond(na.nodal_analysis_coefficient_matrix(net2)))
+        if cond > 1e8:
             out.skip('ill_conditioned'); return
+        tol = min(1e-5, max(1e-8, cond * 1e-12))      # binary64 loses ~cond·eps digits; assembly errors are O(1)
         pot, v, i, p = impl_report(net, nodal_analysis_bias_point_solver(net))
     except Exception as e:
         out.count('unsolvable:' + tag(e)); return
@@ -78,18 +80,19 @@ def network_case(ctx, out, desc, tseed):
         out.spec_fail(dict(canon, symptom='raises', exc=tag(e)), 'transformed description fails to solve', gen_net.pretty(desc),
                       impl=dict(transformed=gen_net.pretty(desc2)), desc=desc, tseed=tseed); return
     out.nontrivial(('net', gen_net.shape(desc), bool(flips)))
-    scale = max([abs(x) for x in list(pot.values()) + list(v.values()) + list(i.values())] + [1.0])
+    scale = max([abs(x) for x in list(pot.values()) + list(v.values())] + [1e-300])
+    iscale = max([abs(x) for x in i.values()] + [gen_net.ymax_json(gen_net.desc_to_json(desc)) * scale])
     shift = pot[next(k for k, s in sigma.items() if s == desc2['zero'])]
     def fail(what, **impl):
         out.spec_fail(dict(canon, symptom=what), f'{what} changed under renaming / permutation / reversal / re-referencing',
                       gen_net.pretty(desc), impl=dict(transformed=gen_net.pretty(desc2), **impl), desc=desc, tseed=tseed)
     for n, s in sigma.items():
-        if not core.close(pot2[s], pot[n] - shift, scale, 1e-8): return fail('potential', node=n, a=str(pot[n] - shift), b=str(pot2[s]))
+        if not core.rclose(pot2[s], pot[n] - shift, scale, tol): return fail('potential', node=n, a=str(pot[n] - shift), b=str(pot2[s]))
     for k, t in tau.items():
         sg = -1 if k in flips else 1
-        if not core.close(v2[t], sg * v[k], scale, 1e-8): return fail('voltage', id=k, a=str(v[k]), b=str(v2[t]))
-        if not core.close(i2[t], sg * i[k], scale, 1e-8): return fail('current', id=k, a=str(i[k]), b=str(i2[t]))
-        if not core.close(p2[t], p[k], scale * scale, 1e-8): return fail('power', id=k, a=str(p[k]), b=str(p2[t]))
+        if not core.rclose(v2[t], sg * v[k], scale, tol): return fail('voltage', id=k, a=str(v[k]), b=str(v2[t]))
+        if not core.rclose(i2[t], sg * i[k], iscale, tol): return fail('current', id=k, a=str(i[k]), b=str(i2[t]))
+        if not core.rclose(p2[t], p[k], scale * iscale, tol): return fail('power', id=k, a=str(p[k]), b=str(p2[t]))
     out.traces_validated += 1
     out.sample(dict(original=gen_net.pretty(desc), transformed=gen_net.pretty(desc2)))
 
